@@ -1547,7 +1547,7 @@ func selfTest() error {
 	if got != selfTestWant {
 		return fmt.Errorf("extractor self-test: got\n%s\nwant\n%s", got, selfTestWant)
 	}
-	return nil
+	return selfTestGlobals()
 }
 
 func usesWaitGroup(info *types.Info, fd *ast.FuncDecl) bool {
@@ -1636,6 +1636,9 @@ func GenTables(repo, out string) error {
 // extractGoroutines analyses every go statement of the scoped files.
 func extractGoroutines(repo string) ([]*xGo, error) {
 	hmMethods = nil
+	globalWrites = nil
+	chanCaps = nil
+	extractRepo = repo
 	x := &extractor{fset: token.NewFileSet(), decls: map[string]*fnDecl{}}
 	ctx := build.Default
 	ctx.BuildTags = append(ctx.BuildTags, "verif")
@@ -1697,10 +1700,14 @@ func extractGoroutines(repo string) ([]*xGo, error) {
 				}
 				for _, fd := range fds {
 					fd := fd
+					chanCaps = append(chanCaps, x.chanCapsOf(fname, fd)...)
 					ast.Inspect(fd.Body, func(n ast.Node) bool {
 						if gs, ok := n.(*ast.GoStmt); ok {
 							if lit, ok := gs.Call.Fun.(*ast.FuncLit); ok {
-								gos = append(gos, x.analyse(p, fname, fd, gs, lit))
+								g := x.analyse(p, fname, fd, gs, lit)
+								gos = append(gos, g)
+								// package-level state written below this goroutine (globals.go)
+								globalWrites = append(globalWrites, x.globalsOf(g, p.info, lit)...)
 							} else {
 								gos = append(gos, &xGo{File: fname, Fn: fd.Name.Name, Line: x.fset.Position(gs.Pos()).Line,
 									Exits:      []xExit{{Kind: "rangeEnd", Line: x.fset.Position(gs.End()).Line, Done: false}},
@@ -1841,6 +1848,51 @@ func emitLean(gos []*xGo, out string) error {
 	b.WriteString("def unsyncSharedWrites : List Write := goroutines.flatMap Goroutine.unsyncSharedWrites\n\n")
 	b.WriteString("/-- read/write races between goroutines visible in the table -/\n")
 	b.WriteString("def readWriteRaces : List (String × Nat × Nat) := racePairs goroutines\n\n")
+	b.WriteString("/-- writes to PACKAGE-LEVEL variables of the module reachable from a goroutine of the four pools through the\n    functions it calls (harness/c11/globals.go): (goroutine, write); the `how` names the call chain -/\n")
+	for _, part := range []struct {
+		name string
+		cmd  bool
+	}{{"globalWrites", false}, {"otherGlobalWrites", true}} {
+		b.WriteString("def " + part.name + " : List (String × Write) := [")
+		firstG := true
+		for _, w := range globalWrites {
+			if strings.HasPrefix(w.File, "cmd/") != part.cmd {
+				continue
+			}
+			if !firstG {
+				b.WriteString(",\n  ")
+			}
+			firstG = false
+			fmt.Fprintf(&b, "(%s, ⟨%s, %s, .%s, %d⟩)", leanStr(fmt.Sprintf("%s:%d %s", w.File, w.GoLine, w.Fn)), leanStr(w.Var), leanStr(w.How+" in "+w.At), w.Sync, w.Line)
+		}
+		b.WriteString("]\n\n")
+	}
+	b.WriteString("/-- capacity of the channels made in the scoped functions (harness/c11/chans.go): (function, variable, element type, a, b),\n    capacity = a * threads + b -/\n")
+	b.WriteString("def chanCaps : List (String × String × String × Nat × Nat) := [")
+	firstC := true
+	for _, c := range chanCaps {
+		if c.Raw != "" {
+			continue
+		}
+		if !firstC {
+			b.WriteString(",\n  ")
+		}
+		firstC = false
+		fmt.Fprintf(&b, "(%s, %s, %s, %d, %d)", leanStr(c.Fn), leanStr(c.Var), leanStr(c.Elem), c.A, c.B)
+	}
+	b.WriteString("]\n\n/-- channels whose capacity expression the extractor could not read -/\ndef chanCapsUnparsed : List (String × String × String) := [")
+	firstC = true
+	for _, c := range chanCaps {
+		if c.Raw == "" {
+			continue
+		}
+		if !firstC {
+			b.WriteString(", ")
+		}
+		firstC = false
+		fmt.Fprintf(&b, "(%s, %s, %s)", leanStr(c.Fn), leanStr(c.Var), leanStr(c.Raw))
+	}
+	b.WriteString("]\n\n")
 	b.WriteString("/-- writes of the exported methods of *hashmap.HashMap through their receiver (method, write) -/\n")
 	b.WriteString("def hashMapWrites : List (String × Write) := [")
 	first := true
